@@ -98,41 +98,37 @@ Theorem C52_preserves_tags_guarded :
 Proof. exact preserves_tags_guarded. Qed.
 Print Assumptions C52_preserves_tags_guarded.
 
-(* no revision stored anywhere is lost: FALSE when a repository is destroyed that nothing was
-   fetched from (no local branch, no new reference) *)
-Theorem C52_no_revision_lost_refuted :
-  exists w w' p r, factory w TUseShared = inl p /\ fetch_guard p w = false
-                   /\ reconfigure TUseShared false None w = Ok w'
-                   /\ memb r (all_revs w) = true /\ memb r (all_revs w') = false
-                   /\ eff_tip w = Some (Some 5) /\ eff_revs w' = [].
-Proof. exact no_revision_lost_refuted. Qed.
-Print Assumptions C52_no_revision_lost_refuted.
-
-Theorem C52_no_revision_lost_guarded :
-  forall t force nb w w' p,
-  factory w t = inl p -> fetch_guard p w = true ->
+(* no revision stored anywhere in the world is lost -- unconditional since ea08d31 (apply() always fetches
+   out of the repository it destroys, or refuses first) *)
+Theorem C52_no_revision_lost :
+  forall t force nb w w',
   reconfigure t force nb w = Ok w' -> forall r, In r (all_revs w) -> In r (all_revs w').
-Proof. exact no_revision_lost_guarded. Qed.
-Print Assumptions C52_no_revision_lost_guarded.
+Proof. exact no_revision_lost. Qed.
+Print Assumptions C52_no_revision_lost.
 
-(* the revisions reachable from the tip stay in the branch's repository -- proved when the location
-   ends with a branch of its own (kept, or created from a reference); the to_lightweight_checkout
-   case and a kept reference are covered by the correspondence run only (notes/C52.md) *)
+(* the revisions reachable from the tip AND the pending merges of a kept tree (fetched since 300cbf1) stay in
+   the branch's repository -- proved when the location ends with a branch of its own (kept, or created from a
+   reference); the to_lightweight_checkout case and a kept reference are covered by the correspondence run
+   only (notes/C52.md) *)
 Theorem C52_preserves_ancestry_partial :
   forall t force nb w w' p tp,
   factory w t = inl p -> p_create_reference p = false ->
   has_local w = true \/ p_create_branch p = true ->
   reconfigure t force nb w = Ok w' -> eff_tip w = Some tp ->
-  forall r, In r (fetched (w_g w) (eff_revs w) tp) -> In r (eff_revs w').
+  forall r, In r (fetched (w_g w) (eff_revs w) tp)
+            \/ (In r (pending_of p w) /\ In r (eff_revs w)) -> In r (eff_revs w').
 Proof. exact preserves_ancestry_partial. Qed.
 Print Assumptions C52_preserves_ancestry_partial.
 
-(* ... but only the ancestry of the TIP is fetched: the revision of a pending merge is not *)
-Theorem C52_pending_merge_revisions_refuted :
-  exists w w' tr m, reconfigure TStandalone false None w = Ok w' /\ w_tree w = Some tr /\ w_tree w' = Some tr
-                    /\ In m (t_parents tr) /\ memb m (eff_revs w) = true /\ memb m (eff_revs w') = false.
-Proof. exact pending_merge_revisions_refuted. Qed.
-Print Assumptions C52_pending_merge_revisions_refuted.
+Theorem C52_pending_merges_kept_partial :
+  forall t force nb w w' p tp tr,
+  factory w t = inl p -> p_create_reference p = false ->
+  has_local w = true \/ p_create_branch p = true ->
+  reconfigure t force nb w = Ok w' -> eff_tip w = Some tp ->
+  w_tree w = Some tr -> p_destroy_tree p = false ->
+  forall m, In m (List.tl (t_parents tr)) -> In m (eff_revs w) -> In m (eff_revs w').
+Proof. exact pending_merges_kept_partial. Qed.
+Print Assumptions C52_pending_merges_kept_partial.
 
 (* ---- refusals ---------------------------------------------------------------------------------------- *)
 
@@ -146,52 +142,39 @@ Theorem C52_refusal_by_check_unchanged :
 Proof. exact refusal_by_check_unchanged. Qed.
 Print Assumptions C52_refusal_by_check_unchanged.
 
-(* a refusal AFTER _check is not atomic: NoBindLocation is raised when the tree has been created *)
-Theorem C52_refusal_leaves_state_refuted :
-  exists w w', reconfigure TCheckout false None w = Fail "NoBindLocation" w'
-               /\ w_tree w = None /\ w_tree w' = Some (mkTree [4] []).
-Proof. exact refusal_leaves_state_refuted. Qed.
-Print Assumptions C52_refusal_leaves_state_refuted.
+(* the branch to bind to is resolved before anything is changed (00bc7de), with or without force ... *)
+Theorem C52_refusal_by_bind_unchanged :
+  forall t nb w p e,
+  factory w t = inl p -> check p w nb = None -> pre_bind p w nb = Some e ->
+  forall force, reconfigure t force nb w = Fail e w.
+Proof. exact refusal_by_bind_unchanged. Qed.
+Print Assumptions C52_refusal_by_bind_unchanged.
+
+(* ... and the bind step itself can no longer refuse *)
+Theorem C52_bind_step_cannot_refuse :
+  forall p w0 nb w b,
+  pre_bind p w0 nb = None -> w_branch w = BLocal b -> exists w', step_bind p w0 nb w = Ok w'.
+Proof. exact bind_step_cannot_refuse. Qed.
+Print Assumptions C52_bind_step_cannot_refuse.
 
 (* ---- format upgrades (specification level) ----------------------------------------------------------- *)
 
-(* whatever upgrade.Convert does -- finish, refuse, loop -- the payload is carried through: the revision
-   set, the tree's parents and changes, the branch's tip/parent/bound location; tags and push location too
-   unless a format-5 branch is converted (see payload_rel) *)
+(* whatever upgrade.Convert does -- finish or refuse -- the payload is carried through: the revision set, the
+   tree's parents and changes, the branch's tip/parent/bound/push location; tags too unless a format-5 branch
+   (which has none) is converted (see payload_rel) *)
 Theorem C52_upgrade_preserves :
   forall d f, payload_rel d (cdir_of (convert d f)).
 Proof. exact upgrade_preserves. Qed.
 Print Assumptions C52_upgrade_preserves.
-
-Theorem C52_upgrade_push_location_refuted :
-  exists d f p p', c_branch d = Some (5, p) /\ c_branch (cdir_of (convert d f)) = Some (7, p')
-                   /\ bp_push p = None /\ bp_push p' = Some 0.
-Proof. exact upgrade_push_location_refuted. Qed.
-Print Assumptions C52_upgrade_push_location_refuted.
 
 Theorem C52_upgrade_reaches_format :
   forall d f d', convert d f = Done d' -> needs_conv d' f = false.
 Proof. exact upgrade_reaches_format. Qed.
 Print Assumptions C52_upgrade_reaches_format.
 
-(* the conversion loop does not always end: for ANY number of iterations the driver is still converting
-   (1.14-rich-root -> development-colo; 1.14 -> 1.9, i.e. tree format 5 -> 4) *)
-Theorem C52_upgrade_terminates_refuted :
-  (forall fuel, exists d', convert_loop fuel w_colo_src w_colo_tgt = Hangs d')
-  /\ (forall fuel, convert_loop fuel w_down_src w_down_tgt = Hangs w_down_src).
-Proof. exact upgrade_terminates_refuted. Qed.
-Print Assumptions C52_upgrade_terminates_refuted.
-
-(* every colo target diverges unless switching the metadir format is all that is needed *)
-Theorem C52_upgrade_colo_diverges :
-  forall d f, tg_colo f = true -> needs_conv (meta_to_colo d f) f = true ->
-  forall fuel, exists d', convert_loop fuel d f = Hangs d'.
-Proof. exact upgrade_colo_diverges. Qed.
-Print Assumptions C52_upgrade_colo_diverges.
-
-(* on every combination of known formats (payload fixed: its irrelevance is not proved) the driver
-   finishes when the target is not colo and the tree format is not lowered *)
-Theorem C52_upgrade_terminates_guarded_partial :
-  forall d f, In d skel_dirs -> In f skel_targets -> upgrade_guard d f = true -> finishes (convert d f) = true.
-Proof. exact upgrade_terminates_guarded_partial. Qed.
-Print Assumptions C52_upgrade_terminates_guarded_partial.
+(* on every combination of known formats -- upgrade or downgrade, colo or not -- the driver finishes
+   (e09d9b1, 69d43de); payload fixed: its irrelevance is not proved *)
+Theorem C52_upgrade_terminates_partial :
+  forall d f, In d skel_dirs -> In f skel_targets -> finishes (convert d f) = true.
+Proof. exact upgrade_terminates_partial. Qed.
+Print Assumptions C52_upgrade_terminates_partial.
